@@ -42,9 +42,9 @@ func genGraph(rng *rand.Rand, o graphOpts) LifeSpec {
 	if dens == 0 {
 		dens = 0.25 + rng.Float64()*0.45
 	}
-	exitCodes := []int{0, 0, 0, 0, 1, 3, 127}
+	exitCodes := []int{0, 0, 0, 0, 1, 3, 127, -1}
 	if o.FailHeavy {
-		exitCodes = []int{0, 0, 1, 2, 3, 127}
+		exitCodes = []int{0, 0, 1, 2, 3, 127, -1}
 	}
 	for i := 0; i < n; i++ {
 		p := PSpec{Name: fmt.Sprintf("p%d", i)}
@@ -60,6 +60,10 @@ func genGraph(rng *rand.Rand, o graphOpts) LifeSpec {
 			p.StartErr = []int{0}
 		case 1:
 			p.BadDir = true
+		case 2, 3:
+			// a process that is not scheduled to run: its dependents do not wait
+			// for it, but still have to wait for their other dependencies
+			p.Disabled = true
 		}
 		if o.Restarts && rng.Intn(4) == 0 {
 			p.Restart = []string{"on_failure", "always", "on_failure"}[rng.Intn(3)]
